@@ -94,7 +94,9 @@ class BatchNorm(Operation):
             if (
                 self.gamma is not None
             ):  # backprop through optional affine transformation
-                gamma = self.gamma.data
+                # (read through `self.variables`: an in-place update of gamma made after
+                # the forward pass re-routes it to a placeholder holding the value used)
+                gamma = self.variables[1].data
                 grad_ *= gamma.reshape(keepdims_shape)
             return grad_
 
